@@ -84,7 +84,18 @@ class AtomsEngine(Engine):
     # --------------------------------------------------------------- generate
     def _near_miss(self, rng, name: str) -> str:
         t = _tables()
-        k = rng.randrange(16)
+        k = rng.randrange(21)
+        if k == 16:
+            return name + rng.choice(["\u200b", "\u00a0", "\x00", "\u0301"])
+        if k == 17:
+            return "".join({"0": "\uff10", "1": "\uff11", "2": "\uff12", "3": "\u0663"}.get(ch, ch) for ch in name) + (
+                "" if any(ch in "0123" for ch in name) else "\uff11")
+        if k == 18:
+            return name * rng.choice([50, 1000])
+        if k == 19:
+            return name.replace("H", "\u041d").replace("C", "\u0421") if any(c in name for c in "HC") else name + "\u00e9"
+        if k == 20:
+            return rng.choice(["+", "-", "0x"]) + name
         if k == 0:
             return name.lower() if name.lower() != name else name.upper()
         if k == 1:
